@@ -13,7 +13,7 @@ func init() {
 		Title: "Encoded responses decode to exactly what was written, and are labelled so",
 		Decided: "for every site that installs a CompressingResponseWriter on the request path: C07.a it is guarded by 'not already compressing', by wantsCompressedResponse on the same request and writer (which refuses when Content-Encoding is already set and only answers gzip/deflate when the request mentions it) and by an enablement test, and uses the coding that call chose; " +
 			"C07.b in a function that selects a route the enablement is the route's own setting when present, else the container's, and no install site lies upstream of route selection; C07.c the Content-Encoding label is set first and equals the codec acquired and released; " +
-			"C07.d after an install everything downstream receives the compressing writer (the raw writer only on the install-failure path) and CompressingResponseWriter.Write forwards to the compressor only; C07.e a deferred Close of the active writer is registered before the install on every path, so the stream is finished on normal, error and panic exits. C07.h no framework code on the request path sets Content-Length (the writer it holds may be encoding).",
+			"C07.d after an install everything downstream receives the compressing writer (the raw writer only on the install-failure path) and CompressingResponseWriter.Write forwards to the compressor only; C07.e a deferred Close of the active writer is registered before the install on every path, so the stream is finished on normal, error and panic exits. C07.h no framework code on the request path sets Content-Length (the writer it holds may be encoding). C07.i on the wrapped writer of the compressing writer no method with a []byte, string or io.Reader parameter is invoked (directly or after a type assertion) and it is handed only to the compress packages: body bytes reach it through the compressor only.",
 		NotDecided:  "the byte-level round trip (compress/gzip and compress/zlib's contract); chunking; that Accept-Encoding quality values such as gzip;q=0 are honoured (the property only requires the coding to be mentioned).",
 		Assumptions: []string{"gzip/zlib writers produce a stream that decodes to the bytes written once Close has run", "net/http ignores header changes after the first write"},
 		Rules: []Rule{
